@@ -12,10 +12,13 @@ CONSTANTS Tier, Seed, Mod, TickMs
 Q == Tier = "quick"
 Ks == IF Q THEN {2, 8, 32} ELSE {2, 3, 4, 8, 16, 32}
 \* "cancelrace": every client also calls Cancel() on its own query from a second goroutine while Exec runs
-Mixes == {"same", "basket", "fallback", "dist", "samefallback", "cancelrace"}
+\* "distfallback": a distributed engine whose remote engines answer part of the queries through their fallback
+Mixes == {"same", "basket", "fallback", "dist", "samefallback", "cancelrace", "distfallback"}
 Basket == << "sum by (a) (m)", "m", "rate(m[3s])", "topk(2, m)", "m * on (a) group_left () n", "abs(m{a=\"x\"}) - m", "quantile by (a) (0.5, m)",
              "scalar(n{a=\"x\"}) + m", "-m", "m @ 4", "clamp_min(m, scalar(p))", "sum(m) / count(m)", "histogram_quantile(0.5, h_bucket)",
-             "absent(nope)", "max_over_time(m[4s:2s])", "m and n", "label_replace(m, \"c\", \"$1\", \"a\", \"(.*)\")", "sort(m)" >>
+             "absent(nope)", "max_over_time(m[4s:2s])", "m and n", "label_replace(m, \"c\", \"$1\", \"a\", \"(.*)\")", "sort(m)",
+             \* constructs the engine lacks below an aggregation that is pushed down to the remote engines
+             "sum by (a) (round(m))", "max by (a) (sgn(m))", "round(m)", "sum by (a) (max_over_time(m[4s:2s]))" >>
 Data == << Series(<< <<"__name__","m">>, <<"a","x">>, <<"b","1">> >>, [i \in 1..14 |-> Smp(i - 1, "f", i)]),
            Series(<< <<"__name__","m">>, <<"a","x">>, <<"b","2">> >>, [i \in 1..14 |-> Smp(i - 1, "f", 20 + i)]),
            Series(<< <<"__name__","m">>, <<"Zone","eu">>, <<"a","y">>, <<"b","1">> >>, [i \in 1..7 |-> Smp(2 * i - 1, "f", 50 - i)]),
